@@ -100,6 +100,22 @@ def run(ctx):
             objs = object_calls(other)
             linked = bool(objs & arg_objs)
             if not linked:
+                # the compared author is a field of (or is) the very value the call is given: `addr.author` vs `&addr`,
+                # `addr.author` vs `addr.author` - whatever the object was unwrapped from
+                r = other
+                for _ in range(4):
+                    if strip_sites(r) in arg_plain:
+                        linked = True
+                        break
+                    if r[0] == "proj" and r[2][0] == "f":
+                        r = r[1]
+                    elif r[0] in ("init", "ref", "byref", "deref") and isinstance(r[1], tuple):
+                        r = r[1]
+                    elif r[0] == "field":
+                        r = r[1]
+                    else:
+                        break
+            if not linked:
                 # target fetched by the same id that the call acts on
                 for o in objs:
                     if o[1].endswith("get_event_by_id") and any(strip_sites(x) in arg_plain for x in o[2]
